@@ -418,7 +418,7 @@ def failure_props(f):
 
 
 def code_props(code):
-    table = {903: ['C09', 'C04', 'C14'], 209: ['C02', 'C17'], 1302: ['C13', 'C08'], 1307: ['C13', 'C06'], 1313: ['C13', 'C11'], 1315: ['C13', 'C11'], 1103: ['C11', 'C13'],
+    table = {1803: ['C18', 'C07', 'C14'], 903: ['C09', 'C04', 'C14'], 209: ['C02', 'C17'], 1302: ['C13', 'C08'], 1307: ['C13', 'C06'], 1313: ['C13', 'C11'], 1315: ['C13', 'C11'], 1103: ['C11', 'C13'],
              602: ['C06', 'C05'], 603: ['C06', 'C05'], 901: ['C09', 'C15'], 1104: ['C11'], 1105: ['C11'],
              1203: ['C12', 'C14'], 1204: ['C12', 'C14'],
              611: ['C06', 'C09'], 612: ['C06', 'C05'], 631: ['C06', 'C05', 'C13'], 632: ['C06', 'C05'], 633: ['C05', 'C06'],
@@ -441,6 +441,7 @@ CODE_TEXT = {
     701: 'caller observed success after cancel without handler OK', 703: 'caller operation did not return when its context was cancelled',
     704: 'handler operation still pending after the cancel notice was delivered', 802: 'handler invoked twice for one RPC', 803: 'wrong handler invoked',
     901: 'panic', 1001: 'handler started for an RPC begun after shutdown', 1002: 'RPC begun after shutdown was not refused with Unavailable',
+    1803: 'a handler read was still pending after the clock had been moved past the deadline the handler got from grpc-timeout',
     1209: 'WaitForReady kept waiting although a tunnel with the key had been registered for 300 ms (waiter left on a set that is no longer the key\'s)',
     903: 'a handler found its context still live after the Serve call of its (reverse) tunnel had returned',
     302: 'a nested tunnel ended (or its next RPC failed) after one RPC with unencodable metadata, although its carrier survives the encode error',
